@@ -129,6 +129,26 @@ def main(ctx):
                               + '; '.join(mine[:2]),
                               replay={'kind': 'sizes', 'quirk': quirk,
                                       'window': val[wc], 'pktsize': val[pc]})
+    # ---- a hostile server answering a want-reply channel request of the
+    # client with something else ----
+    replies = cases(ctx, 'replies', invariants=('Emit', 'WaiterResolved'))
+    cases(ctx, 'replies_hang', invariants=('WaiterResolved',),
+          expect='WaiterResolved')
+    ctx.require(len(replies) == 5 * 6, f'reply cases: {len(replies)}')
+    for kind, instead in replies:
+        (outcome, detail, secs), exc = CL.reply_replaced(kind, instead)
+        ctx.count(('reply', kind, instead), nontrivial=True)
+        sig = {'module': 'Replies', 'request': kind, 'instead': instead}
+        rep_ = {'kind': 'reply', 'request': kind, 'instead': instead}
+        if outcome != 'ok' or secs > 1.5:
+            ctx.violation(sig, f'client {kind} request answered with '
+                          f'{instead}: {outcome} {detail} ({secs:.1f} s)',
+                          replay=rep_)
+        if exc:
+            ctx.violation(dict(sig, loop=True),
+                          f'client {kind} request answered with {instead}: '
+                          f'exception reached the event loop: {exc[0]}',
+                          replay=rep_)
     # ---- messages ----
     H.FIELDS.update(fields_of_spec())
     for name, (_, _, vals) in H.TEMPLATES.items():
